@@ -1,7 +1,7 @@
 (** Trace checker for the C08 correspondence run: replays the operations the harness executed on the
     real energy-factory + token-unstake + lkmex-transfer + locked-token-wrapper and compares every
     observation.  Returns [] or [index; field; model value; implementation value] for the first
-    difference.  Field codes: 1 ok/err, 2 outputs, 3 epoch, 100+u energy amount of user u,
+    difference.  Field codes: 1 ok/err, 2 outputs, 3 epoch, 100+u energy amount of account u (users 1.., escrows 0,-1,-2),
     200+u last update epoch, 300+u total locked tokens, 400+u getEnergyAmountForUser,
     50+(h+2) a locked-token balance of holder h, 60+(h+2) total locked tokens held by h,
     70+(h+2) / 80+(h+2) the same for wrapped tokens. *)
